@@ -1,4 +1,5 @@
 import RoaringModel.Lemmas.BitmapOps
+import RoaringModel.Lemmas.BitmapSearchOps
 /-!
 # C02 — 32-bit set algebra is exactly union / intersection / difference / symmetric difference
 
@@ -9,6 +10,8 @@ laws are `Spec.mem_sOr` … in `Lemmas/AlgebraSpec.lean`).
 Proved here, for all well-formed `a b`:
 * `&a | &b`, `&a & &b`, `&a - &b`, `&a ^ &b` (the four `Pairs` loops of ops.rs), `&a - b` (delegates),
 * `a ^= b`, `a ^= &b` and their wrappers `a ^ b`, `a ^ &b`, `&a ^ b` (the other two `Pairs` loops),
+* `a &= &b`, `a -= &b` (the `retain_mut` + `binary_search_by_key` loops, shown to visit the same chunk pairs
+  as the merge-join) and everything that delegates to them: `a & &b`, `&a & b`, `a -= b`, `a - b`, `a - &b`,
 down to the per-kind store dispatch, the scalar merges, the in-place `retain` forms and
 `ensure_correct_store`.
 
@@ -17,9 +20,10 @@ array folds, `to_array_store` / `to_bitmap_store`) are taken as the *named hypot
 (`Lemmas/StoreOps.lean`); they are proved by the core proof library in parallel and discharge `K`
 mechanically once merged.
 
-GAPS (not yet proved, listed in bin/propcfg/C02.py): the binary-search based loops `a |= b`, `a |= &b`,
-`a &= b`, `a &= &b`, `a -= &b` (and the wrappers that delegate to them) are not yet connected to the
-`Pairs` form; `C02_forms_agree` is therefore stated only for the proved forms.
+GAPS (not yet proved, listed in bin/propcfg/C02.py): the insert-or-merge loops `a |= b` (with the
+`len()`-based operand swap) and `a |= &b`, and `a &= b` (operand swap on `containers.len()`, matched rhs
+chunk moved out) — hence also `a | b`, `a | &b`, `&a | b`, `a & b` — are not yet connected to the `Pairs`
+form; `C02_*_forms_agree` is therefore complete for `-` and `^` only.
 "Borrowed operands are left unchanged" is not a theorem of a functional model (DESIGN §8 C02).
 -/
 namespace Roaring.C02
@@ -52,7 +56,7 @@ theorem C02_sub_rr_partial (K : BKernel) : Exact subRR Spec.sSub := by
 /-- `&a - b` delegates to `&a - &b` (ops.rs:295). -/
 theorem C02_sub_ro_partial (K : BKernel) : Exact subRO Spec.sSub := C02_sub_rr_partial K
 
-theorem xorWith_exact (K : BKernel) (f : Container → Container → Container) (op : Store → Store → Store)
+theorem C02_xorWith_partial (K : BKernel) (f : Container → Container → Container) (op : Store → Store → Store)
     (hf : ∀ l r : Container, f l r = Container.ensureCorrectStore { key := l.key, store := op l.store r.store })
     (hop : Store.OpSpec Store.PXor op) : Exact (xorWith f) Spec.sXor := by
   intro a b ha hb
@@ -62,17 +66,17 @@ theorem xorWith_exact (K : BKernel) (f : Container → Container → Container) 
     (fun y => Spec.mem_sXor _ _ (sorted_elems K a ha) (sorted_elems K b hb) y)
 
 theorem C02_xor_rr_partial (K : BKernel) : Exact xorRR Spec.sXor :=
-  xorWith_exact K _ _ (fun _ _ => rfl) (Store.xorRef_spec K)
+  C02_xorWith_partial K _ _ (fun _ _ => rfl) (Store.xorRef_spec K)
 theorem C02_xor_ao_partial (K : BKernel) : Exact xorAO Spec.sXor :=
-  xorWith_exact K _ _ (fun _ _ => rfl) (Store.xorAssignOwned_spec K)
+  C02_xorWith_partial K _ _ (fun _ _ => rfl) (Store.xorAssignOwned_spec K)
 theorem C02_xor_ar_partial (K : BKernel) : Exact xorAR Spec.sXor :=
-  xorWith_exact K _ _ (fun _ _ => rfl) (Store.xorAssignRef_spec K)
+  C02_xorWith_partial K _ _ (fun _ _ => rfl) (Store.xorAssignRef_spec K)
 /-- `a ^ b` is `a ^= b`, `a ^ &b` is `a ^= &b` (ops.rs:351-369). -/
 theorem C02_xor_oo_partial (K : BKernel) : Exact xorOO Spec.sXor := C02_xor_ao_partial K
 theorem C02_xor_or_partial (K : BKernel) : Exact xorOR Spec.sXor := C02_xor_ar_partial K
 
 /-- symmetric difference is symmetric (needed because `&a ^ b` is computed as `b ^= &a`) -/
-theorem sXor_comm (l r : List Nat) (hl : Sorted l) (hr : Sorted r) : Spec.sXor l r = Spec.sXor r l := by
+theorem C02_sXor_comm (l r : List Nat) (hl : Sorted l) (hr : Sorted r) : Spec.sXor l r = Spec.sXor r l := by
   apply sorted_ext_local _ _ (Spec.sorted_sXor l r hl hr) (Spec.sorted_sXor r l hr hl)
   intro x; rw [Spec.mem_sXor l r hl hr, Spec.mem_sXor r l hr hl]
   constructor <;> (intro h; rcases h with h | h) <;> simp [h.1, h.2]
@@ -81,7 +85,7 @@ theorem sXor_comm (l r : List Nat) (hl : Sorted l) (hr : Sorted r) : Spec.sXor l
 theorem C02_xor_ro_partial (K : BKernel) : Exact xorRO Spec.sXor := by
   intro a b ha hb
   have := C02_xor_ar_partial K b a hb ha
-  exact ⟨this.1, by rw [sXor_comm _ _ (sorted_elems K a ha) (sorted_elems K b hb)]; exact this.2⟩
+  exact ⟨this.1, by rw [C02_sXor_comm _ _ (sorted_elems K a ha) (sorted_elems K b hb)]; exact this.2⟩
 
 /-- All six forms of `^` return structurally equal values (canonical form is not even needed: the same
     element list and well-formedness pin the value down only up to C04's canonical-form theorem, so the
@@ -96,6 +100,53 @@ theorem C02_xor_forms_agree_partial (K : BKernel) (a b : Bitmap) (ha : a.WF) (hb
   · rfl
   · exact (C02_xor_ao_partial K a b ha hb).2.trans h0.symm
   · exact (C02_xor_ar_partial K a b ha hb).2.trans h0.symm
+
+/-! ### the search-based loops -/
+
+theorem C02_and_ar_partial (K : BKernel) : Exact andAR Spec.sAnd := by
+  intro a b ha hb
+  rw [andAR_eq, searchOp_eq_pairsOp _ _ _ a b ha hb]
+  exact pairsOp_elems_eq K (pairSpec_andAR K) a b ha hb _
+    (Spec.sorted_sAnd _ _ (sorted_elems K a ha) (sorted_elems K b hb))
+    (fun y => Spec.mem_sAnd _ _ (sorted_elems K a ha) (sorted_elems K b hb) y)
+
+/-- `a & &b` is `a &= &b` (ops.rs:197). -/
+theorem C02_and_or_partial (K : BKernel) : Exact andOR Spec.sAnd := C02_and_ar_partial K
+
+theorem C02_sAnd_comm (l r : List Nat) (hl : Sorted l) (hr : Sorted r) : Spec.sAnd l r = Spec.sAnd r l := by
+  apply sorted_ext_local _ _ (Spec.sorted_sAnd l r hl hr) (Spec.sorted_sAnd r l hr hl)
+  intro x; rw [Spec.mem_sAnd l r hl hr, Spec.mem_sAnd r l hr hl]; exact And.comm
+
+/-- `&a & b` = `BitAnd::bitand(rhs, self)` (ops.rs:207): the operands are exchanged. -/
+theorem C02_and_ro_partial (K : BKernel) : Exact andRO Spec.sAnd := by
+  intro a b ha hb
+  have := C02_and_ar_partial K b a hb ha
+  exact ⟨this.1, by rw [C02_sAnd_comm _ _ (sorted_elems K a ha) (sorted_elems K b hb)]; exact this.2⟩
+
+theorem C02_sub_ar_partial (K : BKernel) : Exact subAR Spec.sSub := by
+  intro a b ha hb
+  rw [subAR_eq, searchOp_eq_pairsOp _ _ _ a b ha hb]
+  exact pairsOp_elems_eq K (pairSpec_subAR K) a b ha hb _
+    (Spec.sorted_sSub _ _ (sorted_elems K a ha) (sorted_elems K b hb))
+    (fun y => Spec.mem_sSub _ _ (sorted_elems K a ha) (sorted_elems K b hb) y)
+
+/-- `a -= b`, `a - b`, `a - &b` all are `a -= &b` (ops.rs:275-334). -/
+theorem C02_sub_ao_partial (K : BKernel) : Exact subAO Spec.sSub := C02_sub_ar_partial K
+theorem C02_sub_oo_partial (K : BKernel) : Exact subOO Spec.sSub := C02_sub_ar_partial K
+theorem C02_sub_or_partial (K : BKernel) : Exact subOR Spec.sSub := C02_sub_ar_partial K
+
+/-- All six forms of `-` agree (on the element lists; structural equality then follows from C04's
+    canonical-form theorem since every result is well-formed). -/
+theorem C02_sub_forms_agree_partial (K : BKernel) (a b : Bitmap) (ha : a.WF) (hb : b.WF) (fm : Form) :
+    elems (binop .sub fm a b) = elems (subRR a b) := by
+  have h0 := (C02_sub_rr_partial K a b ha hb).2
+  cases fm
+  · exact (C02_sub_oo_partial K a b ha hb).2.trans h0.symm
+  · exact (C02_sub_or_partial K a b ha hb).2.trans h0.symm
+  · rfl
+  · rfl
+  · exact (C02_sub_ao_partial K a b ha hb).2.trans h0.symm
+  · exact (C02_sub_ar_partial K a b ha hb).2.trans h0.symm
 
 /-- the wrappers of ops.rs delegate: `a | b` is `a |= b`, `a | &b` is `a |= &b`, `&a | b` is `b |= &a`;
     likewise for `&`; every owned/borrowed form of `-` is `a -= &b` except `&a - &b` / `&a - b`. -/
